@@ -118,7 +118,15 @@ def witness(rng, lock_info) -> bytes:
         elif r < 0.62:
             parts.append(pressure(rng, rng.random() < 0.7))
         elif r < 0.7:
-            parts.append(isa.push(rbytes(rng, rng.choice((1, 2, 32)))))  # junk
+            # junk, also EMPTY items (they add no bytes to the stack)
+            parts.append(rng.choice((
+                isa.push(rbytes(rng, rng.choice((1, 2, 32)))),
+                isa.push(rbytes(rng, 1)),
+                b'\x03\x00',                                # PUSH1, size 0
+                b'\x03\x00' * 2,
+                O('GET_MESSAGE') + b'\xff',                  # empty message
+                isa.push(b'\x07') + isa.push(b'\x00') + O('SPLIT') + O('POP0'),
+            )))
         elif r < 0.8:
             burn = rng.randrange(1, 6)
             parts.append(isa.DEF(9, b'') + isa.CALL(9) * burn)
@@ -197,6 +205,7 @@ def lock(rng):
         tail.append(O('EQUAL_VERIFY'))
     fin = rng.choice((O('TRUE'), O('TRUE'), O('TRUE'), O('FALSE'),
                       O('TRUE') + O('TRUE'), b'', isa.push(b'\xff\x00'),
+                      b'\x03\x00' + O('TRUE'), O('TRUE') + b'\x03\x00',
                       O('TRUE') + O('RETURN') + O('FALSE'),
                       isa.push(b'\x01')))
     return b''.join(pre) + b''.join(tail) + fin, info
